@@ -618,6 +618,10 @@ def dated_case(ctx, job, idx, rng, st):
         x = d._mjd
         if tag != "node" and (x in xs):
             tag = "node-by-rounding"  # a date closer than one float-MJD ulp to a node *is* that node for the library
+        elif tag == "node" and x != xs[offs.index(off)]:
+            # the same instant reached through another scale label can sit one ulp of the float MJD (about a microsecond) off the
+            # abscissa of the node: for the library that is a point next to the node, judged as such below (not bitwise)
+            tag = "node-one-ulp-off-through-another-scale"
         ctx.count("query:" + tag)
         res, win = eval_checked(ctx, st, f, d, xs_arr, x, witness, cls)
         if res is None:
